@@ -722,6 +722,37 @@ def _check_minmax(chk, lib, lf, name, cls, sym):
         if got[0] != 'value' or got[1] != want:
             if bad is None:
                 bad = (values, got, want)
+    # concrete arguments of every plain type, one and two at a time (the comparison itself evaluated, no oracle): a single argument is the least and the greatest argument
+    if bad is None:
+        it2 = libsim.LibInterp(chk.repo, lib, 'C11.U')
+        it2.oracles.pop('value_compare', None)
+        mk = [lambda: libsim.AList([3.0, 1.0, 2.0]), lambda: libsim.AList([]), lambda: libsim.AList([libsim.AList([1.0]), libsim.AList([0.0, 5.0])]), lambda: 'abc', lambda: '',
+              lambda: libsim.ADict({'a': 1.0}), lambda: libsim.ADict({}), lambda: None, lambda: 5.0, lambda: 0, lambda: True, lambda: False, lambda: libsim.AList([None])]
+        for m in mk:
+            v = m()
+            n += 1
+            got1 = it2.run(lf.func, [libsim.AList([v]), libsim.ADict({})])
+            same = got1[0] == 'value' and (got1[1] is v if isinstance(v, (libsim.AList, libsim.ADict)) else (type(got1[1]) is type(v) and got1[1] == v))
+            if not same:
+                from ..absint import reify
+                chk.bad('C11.U', lib, lf.pyname, f'{name}(one argument)', f'{name} applied to the single argument {reify(v)!r} gives {reify(got1[1]) if got1[0] == "value" else got1[:2]!r}; '
+                        f'the {"greatest" if name == "mathMax" else "least"} of one argument is that argument')
+                return
+        pairs = [(lambda: libsim.AList([1.0, 2.0]), lambda: libsim.AList([1.0, 3.0]), 1), (lambda: libsim.AList([2.0]), lambda: libsim.AList([1.0, 5.0]), 0), (lambda: 'a', lambda: 'b', 1),
+                 (lambda: libsim.AList([]), lambda: libsim.AList([None]), 1), (lambda: False, lambda: True, 1), (lambda: 2, lambda: 10.5, 1)]
+        for ma, mb, hi in pairs:
+            for swap in (False, True):
+                a, b = ma(), mb()
+                args = [b, a] if swap else [a, b]
+                want2 = (b if hi else a) if name == 'mathMax' else (a if hi else b)
+                n += 1
+                got2 = it2.run(lf.func, [libsim.AList(args), libsim.ADict({})])
+                ok2 = got2[0] == 'value' and (got2[1] is want2 if isinstance(want2, (libsim.AList, libsim.ADict)) else (type(got2[1]) is type(want2) and got2[1] == want2))
+                if not ok2:
+                    from ..absint import reify
+                    chk.bad('C11.U', lib, lf.pyname, f'{name}(two arguments)', f'{name}({reify(args[0])!r}, {reify(args[1])!r}) gives {reify(got2[1]) if got2[0] == "value" else got2[:2]!r}; '
+                            f'the {"greatest" if name == "mathMax" else "least"} argument under the value order is {reify(want2)!r}')
+                    return
     if bad:
         values, got, want = bad
         show = lambda v: 'null' if v is None else v.args[0] if isinstance(v, Sym) else repr(v)
